@@ -488,6 +488,16 @@ pub fn observe_batch(docs: &[DesignSpaceDocument]) -> Vec<String> {
     for (i, d) in docs.iter().enumerate() {
         let p = dir.join(format!("{}.designspace", i));
         rm_rf(&p);
+        // every other document is saved over an existing, much longer file: whatever was there before
+        // must not survive (a save that does not truncate leaves a tail behind the root element)
+        if i % 2 == 1 {
+            let mut junk = String::from("<?xml version='1.0' encoding='UTF-8'?>\n<designspace format=\"4.1\">\n");
+            for k in 0..4000 {
+                junk.push_str(&format!("  <instance name=\"old{}\"/>\n", k));
+            }
+            junk.push_str("</designspace>\n<!-- tail of an older, longer file -->\n<instances><instance name=\"tail\"/></instances>\n");
+            std::fs::write(&p, junk).unwrap();
+        }
         match guarded(|| d.save(&p)) {
             Err(_) => saved.push(Some("save:panic")),
             Ok(Err(_)) => saved.push(Some("save:err")),
@@ -690,7 +700,9 @@ impl G {
             3 => Value::Real(self.real()),
             4 => Value::Boolean(self.rng.chance(1, 2)),
             5 => {
-                let n = self.rng.below(7);
+                // short blobs mostly; one in four long enough to need several 76-column base64 lines
+                // (a writer that wraps long data, as other plist writers do, must still be readable)
+                let n = if self.rng.chance(1, 4) { 50 + self.rng.below(150) } else { self.rng.below(7) };
                 Value::Data((0..n).map(|_| self.rng.next() as u8).collect())
             }
             6 => Value::Date(self.date()),
